@@ -19,8 +19,8 @@ from pathlib import Path
 from simgriffe import core
 from simgriffe.seams import World, purge_modules
 
-PK, EXT, PRIV = "c15pk", "c15ext", "_c15pk"
-WORLD_TOPS = {PK, EXT, PRIV, "c15missingdep"}
+PK, EXT, PRIV, EXT2 = "c15pk", "c15ext", "_c15pk", "c15ext2"
+WORLD_TOPS = {PK, EXT, PRIV, EXT2, "c15missingdep"}
 FAULTS = ["exception", "importerror", "systemexit", "sysexit", "kbi", "missingdep", "recursion", "baseexc"]
 COMPILED_SUFFIXES = (".so", ".pyd", ".pyc")
 
@@ -80,8 +80,12 @@ def generate(rng, opts):
     modules = {}
     for n in names:
         modules[n] = _gen_module(rng, n, cfg, [o for o in names if o != n])
-    for n in (EXT, f"{EXT}.x", PRIV):
+    for n in (EXT, f"{EXT}.x", PRIV, EXT2, f"{EXT2}.y"):
         modules[n] = _gen_module(rng, n, {**cfg, "p_ext": 0.0}, [])
+    # external packages can themselves pull in further external packages (chains of on-demand loads)
+    for n in (EXT, f"{EXT}.x", PRIV):
+        if rng.random() < cfg["p_ext"]:
+            modules[n]["imports"].append(rng.choice([f"star:{EXT2}", f"from:{EXT2}"]))
     n_faults = rng.choice([0, 0, 1, 1, 2])
     for victim in rng.sample(list(modules), min(n_faults, len(modules))):
         modules[victim]["fault"] = rng.choice(FAULTS)
@@ -90,7 +94,7 @@ def generate(rng, opts):
         for form in rng.sample(["so", "abi3", "pyd", "pyc"], rng.choice([1, 2, 3])):
             # bare names that collide with modules the interpreter has already imported are legal sub-module names
             name = rng.choice(["z" + form, "z" + form, "math", "types", "_json", "abc", "sys", "os"])
-            compiled.append({"parent": rng.choice([PK] + ([f"{PK}.sub"] if f"{PK}.sub" in modules else [])), "name": name, "form": form})
+            compiled.append({"parent": rng.choice([PK, PK, EXT, EXT2] + ([f"{PK}.sub"] if f"{PK}.sub" in modules else [])), "name": name, "form": form})
     stubs = [n for n in names if cfg["stubs"] and rng.random() < 0.5]
     ops = []
     for _ in range(rng.choice([1, 2, 2, 3, 4])):
@@ -131,7 +135,7 @@ def _fault_code(kind):
 def render_world(world):
     files = {"sent/.keep": ""}
     mods = world["modules"]
-    pkgs = {n for n in mods if any(o.startswith(n + ".") for o in mods)} | {PK, EXT, PRIV}
+    pkgs = {n for n in mods if any(o.startswith(n + ".") for o in mods)} | {PK, EXT, PRIV, EXT2}
     for n, m in mods.items():
         lines = ["import builtins, os, sys", f"open(os.path.join('<ROOT>', 'sp0', 'sent', {n!r}), 'w').close()"]
         fault = [_fault_code(m["fault"])] if m["fault"] else []
@@ -392,7 +396,7 @@ def shrink_candidates(plan):
     world = plan["world"]
     mods = world["modules"]
     for n in list(mods):
-        if n in (PK, EXT, PRIV, f"{EXT}.x") or any(o.startswith(n + ".") for o in mods):
+        if n in (PK, EXT, PRIV, EXT2, f"{EXT}.x", f"{EXT2}.y") or any(o.startswith(n + ".") for o in mods):
             continue
         new = {k: {**v, "imports": [i for i in v["imports"] if i != n]} for k, v in mods.items() if k != n}
         yield {**plan, "world": {**world, "modules": new}}
